@@ -11,7 +11,7 @@ CHECKS = {
  'C02': ('model_checking', 'Exhaustive enumeration of the (context, slot, child[, grandchild], parenthesisation) table of the expression/statement/pattern grammar, of numeric spelling classes x contexts, of all strings over 14 quoting-relevant character classes up to length 3-5 in 28 literal placements, plus explicit-state exploration of the token-spacing machine (lexeme-class pairs observed from the real printers x every lexeme variant, re-tokenised). Every case is printed by the real unparser and by minify(all transforms off) and compared with a strict tree oracle under up to nine interpreters.',
          'bounded exhaustive enumeration of the grammar table + explicit-state exploration of the token-spacing machine on the real implementation',
          'Trusted: the interpreters\' own ast.parse/tokenize as reference; bounded depth/length as stated in the evidence file.'),
- 'C03': ('exploration', 'Every compilable scope-tree program (runnable or not) x all 15 non-empty subsets of the renaming switches (x annotation removal): the output must compile, must be alpha-equivalent to the un-renamed print under an independent implementation of the language\'s scoping rules (bijection on bindings, identity on builtin/unbound names, aliases merged), and must behave the same when run. The resolver is cross-checked against symtable on every program.',
+ 'C03': ('exploration', 'Every compilable scope-tree program (runnable or not; incl. decoy names from the renamer's own alphabet, depth-3 chains and annotation-position programs) x all 15 non-empty subsets of the renaming switches (x annotation removal): the output must compile, must be alpha-equivalent to the un-renamed print under an independent implementation of the language\'s scoping rules (bijection on bindings, identity on builtin/unbound names, aliases merged), and must behave the same when run. The resolver is cross-checked against symtable on every program.',
          'bounded exhaustive enumeration of scope trees; static alpha-equivalence oracle + differential execution',
          'Scoping rules as implemented in mc/oracle/scopes.py (cross-checked against symtable and execution); <=2/3 nested scopes; one tracked name.'),
  'C04': ('exploration', 'Scope-tree programs and all fragment programs x option sets (all subsets of the renaming switches x annotation/literal-statement bases; full(7) on fragments): attribute, keyword, import, class-body, keyword-callable parameter, dunder and unbound names keep their spelling at every aligned position; module-level name set unchanged except for added underscore names when rename_globals is off.',
@@ -32,30 +32,30 @@ CHECKS = {
  'C07': ('exploration', 'All pairs of 92 signed literal operands x 13 operators, both associations at depth 2 (12- / 23-operand alphabets), every foldable depth-1 expression in 51 syntactic contexts, under every installed interpreter: wherever the folded output differs from the unfolded one both sides are evaluated by the interpreter and must agree in type, value, sign of zero and infinities; raising / NaN originals must be left alone; the result must not be longer.',
          'bounded exhaustive enumeration of literal expressions; independent evaluation of every folded sub-expression',
          'Operand alphabet of mc/gen/lits.py; shifts by >= 2^31 excluded (the folder builds the value, which takes minutes and gigabytes on interpreters without the int->str limit - a resource issue outside the property).'),
- 'C08': ('exploration', 'Union of all program enumerators (grammar table, numbers incl. 4300-digit boundaries, string placements, scope trees, fragments, hoisting and taint programs, literal arithmetic) x option sets (5 broad sets everywhere, dev(1) around default/all-on/all-off and the full rename group on small programs), all token strings of <=4/5 tokens from a 24-token alphabet for the invalid side, and every installed interpreter: compile(S) ok => minify returns and compile(out) ok; ast.parse(S) fails => same exception class from minify.',
+ 'C08': ('exploration', 'Union of all program enumerators (grammar table, numbers incl. 4300-digit boundaries, string placements, scope trees, fragments, hoisting and taint programs, literal arithmetic) x option sets (5 broad sets everywhere, dev(1) around default/all-on/all-off and the full rename group on small programs), all token strings of <=3/4 tokens from a 27-token alphabet for the invalid side, and every installed interpreter: compile(S) ok => minify returns and compile(out) ok; ast.parse(S) fails => same exception class from minify.',
          'bounded exhaustive enumeration over the union of program spaces x option sets x interpreters',
          'compile() of the running interpreter decides compilable; old interpreters are not fed N**N / N<<N with huge N because their own compile() folds them without limit.'),
  'C12': ('exploration', 'Every string/bytes over the quoting character classes (length <=3-5) in 28 literal placements, ~70 break-out payloads in every placement (escaped and raw), literal arithmetic and non-literal operands next to literals, x 2-3 option sets, each minify call under a sys.addaudithook recorder: every executed code object must be closed (no names/locals/free variables/nested code), no import outside python_minifier, no open/os/subprocess/socket/ctypes event; a sentinel function would flip a flag if input text ran.',
          'bounded exhaustive enumeration of literal contents x placements under an audit-hook monitor',
          'Audit hooks of CPython >= 3.8 see every exec/compile/import/open; the parser\'s own lazy import of unicodedata and its lookup of the pseudo file name for SyntaxError display are whitelisted.'),
- 'C13': ('model_checking', 'Reference model = the documented flag->option table. (a) all 2^19 subsets of the boolean flags: the real parse_args + do_minify run in-process with minify replaced by a recorder, recorded keywords must equal the model, invalid subsets must exit non-zero before anything is recorded or written; (b) end-to-end bytes through the real main() for every subset within 2 flags of none (quick) / all 2^19 (thorough) x 3 sources on which every flag changes the output; (c) every way to split <=3 preserve names over repeated flags, commas, spaces and empty segments; (d) the dev(2) vectors repeated through the real executable in stdin / file / --output modes and compared byte for byte with the in-process driver.',
+ 'C13': ('model_checking', 'Reference model = the documented flag->option table. (a) all 2^19 subsets of the boolean flags: the real parse_args + do_minify run in-process with minify replaced by a recorder, recorded keywords must equal the model, invalid subsets must exit non-zero before anything is recorded or written; (b) end-to-end bytes through the real main() for every subset within 2 flags of none (quick) / all 2^19 (thorough) x 3 sources on which every flag changes the output; (c) every way to split <=3 preserve names over repeated flags, commas, spaces and empty segments; (d) the dev(2) vectors repeated through the real executable in stdin / file / --output modes and compared byte for byte with the in-process driver; (e) every documented invalid path/output combination must exit non-zero having written nothing, in-process and through the executable.',
          'exhaustive enumeration of the 2^19 flag states against a reference model of the documented flag table; model traces replayed against the real executable',
          'The table in mc/clidrv.py is the reading of the documentation; fake streams validated against the subprocess.'),
- 'C14': ('exploration', 'Every token string of <=3/4 tokens from a 24-token alphabet and grow/tie/shrink programs in 7 encodings x 3 newline conventions x 4 shebang forms, x 4 flag sets x 5 output modes (stdin/file -> stdout/--output, --in-place) x override {unset, empty, set}: nothing written and non-zero exit for unparseable input; written == api bytes when they are not longer than the source (or the override is set), else written == source; never more bytes than read.',
+ 'C14': ('exploration', 'Every token string of <=3/4 tokens from a 27-token alphabet (incl. composite tokens that make a source grow) and grow/tie/shrink programs in 7 encodings x 3 newline conventions x 4 shebang forms, x 4 flag sets x 5 output modes (stdin/file -> stdout/--output, --in-place) x override {unset, empty, set}: nothing written and non-zero exit for unparseable input; written == api bytes when they are not longer than the source (or the override is set), else written == source; never more bytes than read.',
          'bounded exhaustive enumeration of source byte strings x flags x output modes x environment',
          'In-process main() validated against the executable on a subset.'),
- 'C15': ('model_checking', 'Explicit tree/fault state machine: all trees of <=3/4 entries from 15 file kinds (shrinking/growing/empty .py, .pyw, syntax error, undecodable, injected unreadable / read-only, non-Python names, sub-directory, file/directory symlinks, symlink loop) x 5 argument forms x 2 flag sets x both directory listing orders, against a reference model of visit order and per-file outcome; every file\'s post-state, the listing, the exit status and the set of files must match the model (post-state always in {pre, api(pre)[, api(api(pre)) for aliased paths]}); single-file stdout/--output modes never touch the source; a subset is repeated through the real executable.',
+ 'C15': ('model_checking', 'Explicit tree/fault state machine: all trees of <=3/4 entries from 20 file kinds (shrinking/growing/empty .py, .pyw, syntax error, undecodable, injected unreadable / read-only, non-Python names incl. .pyi/.pyx/.PY, sub-directory, file/directory/dangling symlinks, symlink loop) x 7 argument forms (incl. a missing path) x 2 flag sets x both directory listing orders, against a reference model of visit order and per-file outcome; every file\'s post-state, the listing, the exit status and the set of files must match the model (post-state always in {pre, api(pre)[, api(api(pre)) for aliased paths]}); single-file stdout/--output modes never touch the source; a subset is repeated through the real executable.',
          'explicit-state enumeration of directory trees x fault positions x listing orders against a reference model; model traces validated against the implementation on every case',
          'Faults injected by shadowing open()/os.walk in python_minifier.__main__; torn writes are outside the property.'),
- 'C16': ('exploration', '32 constant-carrying programs x 8 encodings (UTF-8, BOM, cookies latin-1/cp1252/shift_jis/utf-8, cookie contradicting a BOM) x 5 newline conventions x 6 shebang forms x {bytes, str} x preserve_shebang on/off x {all transforms off, default}, and through the CLI: strict tree equality with the interpreter\'s own parse of the bytes (or same behaviour), first-line rule, api(bytes) == api(text), CLI output decodes as UTF-8; sources the interpreter rejects must raise the same exception class.',
+ 'C16': ('exploration', '32 constant-carrying programs x 8 encodings (UTF-8, BOM, cookies latin-1/cp1252/shift_jis/utf-8, cookie contradicting a BOM) x 5 newline conventions x 11 shebang forms (incl. characters str.splitlines() treats as line ends) x {bytes, str} x preserve_shebang on/off x {all transforms off, default}, and through the CLI: strict tree equality with the interpreter\'s own parse of the bytes (or same behaviour), first-line rule, api(bytes) == api(text), CLI output decodes as UTF-8; sources the interpreter rejects must raise the same exception class.',
          'bounded exhaustive enumeration of encodings x newlines x shebangs x input types',
          'The interpreter\'s own reading of the bytes is the reference.'),
  'C11': ('model_checking', 'Four owned sources of nondeterminism. (1) explicit-state BFS over call histories (14-call alphabet sharing preserve lists, option objects, type parameters, __all__, raising calls; depth 3 / 4), every history in its own fresh process, state = digest of all mutable module-level/class/default-argument state of python_minifier + caller-owned arguments; invariants per transition: result == fresh-process result, arguments == pre-call copies, module state unchanged. (2) stateless preemption-bounded exploration of 2-3 threads calling minify() under a cooperative scheduler (trace events inside python_minifier are the scheduling points): bound 0, every single preemption at line granularity, pairs at call granularity and 3 threads (thorough). (3) every permutation (<=3 elements; reverse/rotations above) of the iteration order of the string sets the renamer builds. (4) PYTHONHASHSEED 0..15 / 0..63+random in fresh processes.',
          'explicit-state BFS over call histories + preemption-bounded schedule enumeration + exhaustive set-order permutations on the real implementation',
          'GIL-level interleavings (line/call events), not bytecode-level; seeds are a bounded enumeration backed by explicit set-order control.'),
- 'C17': ('exploration', 'Pinned corpus (183 modules: python_minifier itself at the pinned commit + 149 CPython 3.12.1 stdlib modules, checksummed) x 11 size options x 2 bases {all off, default minus the option}: the minified text with the option on is never longer (characters and UTF-8 bytes) than with it off. The finite space is enumerated completely; there is no state machine here.',
+ 'C17': ('exploration', 'Pinned corpus (329 modules: python_minifier itself at the pinned commit, 149 CPython 3.12.1 stdlib modules of 2-120 KiB and 146 small real modules of 40 B - 2 KiB, checksummed) x 11 size options x 2 bases {all off, default minus the option}: the minified text with the option on is never longer (characters and UTF-8 bytes) than with it off. The finite space is enumerated completely; there is no state machine here.',
          'complete enumeration of a finite configuration space (corpus x option x base)',
-         'The corpus is fixed bytes; quick uses the 34 repository modules + every 6th stdlib module.'),
+         'The corpus is fixed bytes; both tiers enumerate all of it (about half a minute). Two recorded findings (hoisting cost model ignores indentation).'),
 }
 
 
